@@ -143,6 +143,7 @@ class Item(object):
         self.enabled_before = self.enabled_after = True
         self.opening = self.closing = False
         self.exception = None
+        self.scale = 0.0
         self.regions = None       # regions in force when the item was processed
         self.margin = 0.0
 
@@ -216,6 +217,7 @@ def run(case, filter_factory=DirectFilter, stop_on_exception=True, observer=None
     enabled = True
     is_open = False
     active = True
+    scale = 0.0
     ever_nontrivial = False
     for idx, item in enumerate(case["prog"]):
         it = Item(idx, item)
@@ -327,6 +329,13 @@ def run(case, filter_factory=DirectFilter, stop_on_exception=True, observer=None
             st = pf.execute(cmd) if isinstance(cmd, str) else None
             it.f_steps.append((st, pf.snap()))
         it.u_after = pu.snap()
+        # largest coordinate magnitude either printer has held so far: float round-off of positions that passed through
+        # such values is a few ulp of *that* magnitude, whatever the current value is
+        for snap in [it.u_after] + [sn for _, sn in it.f_steps]:
+            for v in snap[:5]:
+                if v is not None and abs(v) > scale:
+                    scale = abs(v)
+        it.scale = scale
         it.open_after, it.enabled_after, it.active_after = is_open, enabled, active
         if observer is not None:
             observer(it, flt)
